@@ -1325,4 +1325,627 @@ theorem siblingsValue_encTree (S : Strconv) (key : Str) (v : Val) (ns : List Nod
   rw [this, groupOnto_nil]
   rfl
 
+
+/-! ### the encoder succeeds on `EncDomain` -/
+
+theorem isScalar_wf {v : Val} (h : isScalar v = true) : v.wf = true := by
+  cases v <;> simp [isScalar, attrValue] at h <;> rfl
+
+mutual
+theorem EncDomain_wf : ∀ (v : Val), EncDomain v = true → v.wf = true
+  | .null, _ => rfl
+  | .bool _, _ => rfl
+  | .num _, _ => rfl
+  | .str _, _ => rfl
+  | .list xs, h => by
+      simp only [EncDomain] at h
+      simp only [Val.wf, EncDomainList_wf xs h]
+  | .map kvs, h => by
+      simp only [EncDomain, Bool.and_eq_true] at h
+      simp only [Val.wf, EncDomainEntries_wf kvs h.2, h.1, Bool.and_self]
+theorem EncDomainList_wf : ∀ (xs : List Val), EncDomainList xs = true → Val.wfList xs = true
+  | [], _ => rfl
+  | x :: xs, h => by
+      simp only [EncDomainList, Bool.and_eq_true] at h
+      simp only [Val.wfList, EncDomain_wf x h.1, EncDomainList_wf xs h.2, Bool.and_self]
+theorem EncDomainEntries_wf : ∀ (kvs : Entries), EncDomainEntries kvs = true →
+    Val.wfEntries kvs = true
+  | [], _ => rfl
+  | (k, v) :: rest, h => by
+      simp only [EncDomainEntries, Bool.and_eq_true] at h
+      simp only [Val.wfEntries, EncDomainEntries_wf rest h.2, Bool.and_true]
+      have h1 := h.1
+      split at h1
+      · exact isScalar_wf h1
+      · exact EncDomain_wf v h1
+end
+
+theorem encAttrs_ok : ∀ (kvs : Entries), EncDomainEntries kvs = true →
+    ∃ attrs, encAttrs ec kvs = .ok attrs
+  | [], _ => ⟨[], rfl⟩
+  | (k, v) :: rest, h => by
+      simp only [EncDomainEntries, Bool.and_eq_true] at h
+      obtain ⟨r, hr⟩ := encAttrs_ok rest h.2
+      simp only [encAttrs]
+      split
+      · rename_i ha
+        have h1 := h.1
+        simp only [ha, Bool.true_or, if_true, isScalar] at h1
+        obtain ⟨s, hs⟩ := Option.isSome_iff_exists.1 h1
+        exact ⟨⟨[], k.drop ec.attrPrefix.length, s⟩ :: r, by simp only [encAttr, hs, hr]⟩
+      · exact ⟨r, hr⟩
+
+theorem textValue_ok : ∀ (kvs : Entries) (tv : Val), EncDomainEntries kvs = true →
+    lookup ec.textK kvs = some tv → ∃ t, fmtV tv = some t
+  | [], _, _, h => by simp [lookup] at h
+  | (k, v) :: rest, tv, hd, h => by
+      simp only [EncDomainEntries, Bool.and_eq_true] at hd
+      simp only [lookup] at h
+      split at h
+      · rename_i e
+        obtain rfl := Option.some.inj h
+        have h1 := hd.1
+        simp only [← e, decide_true, Bool.or_true, if_true, isScalar] at h1
+        match v, h1 with
+        | .str _, _ => exact ⟨_, rfl⟩
+        | .num _, _ => exact ⟨_, rfl⟩
+        | .bool true, _ => exact ⟨_, rfl⟩
+        | .bool false, _ => exact ⟨_, rfl⟩
+        | .null, h1 => simp [attrValue] at h1
+        | .list _, h1 => simp [attrValue] at h1
+        | .map _, h1 => simp [attrValue] at h1
+      · exact textValue_ok rest tv hd.2 h
+
+mutual
+theorem encTree_ok : ∀ (key : Str) (v : Val), EncDomain v = true → ∃ ns, encTree ec key v = .ok ns
+  | key, .null, _ => ⟨_, rfl⟩
+  | key, .str s, _ => ⟨_, rfl⟩
+  | key, .bool true, _ => ⟨_, rfl⟩
+  | key, .bool false, _ => ⟨_, rfl⟩
+  | key, .num t, _ => ⟨_, rfl⟩
+  | key, .list xs, h => by
+      simp only [EncDomain] at h
+      simp only [encTree]
+      split
+      · exact ⟨_, rfl⟩
+      · exact encMembers_ok key xs h
+  | key, .map vv, h => by
+      simp only [EncDomain, Bool.and_eq_true] at h
+      obtain ⟨attrs, hA⟩ := encAttrs_ok vv h.2
+      obtain ⟨kids, hE⟩ := encElems_ok vv h.2
+      simp only [encTree, hA, hE]
+      split
+      · exact ⟨_, rfl⟩
+      · split
+        · rename_i tv hl
+          obtain ⟨t, ht⟩ := textValue_ok vv tv h.2 hl
+          simp only [ht]
+          split <;> exact ⟨_, rfl⟩
+        · exact ⟨_, rfl⟩
+theorem encMembers_ok (key : Str) : ∀ (xs : List Val), EncDomainList xs = true →
+    ∃ ns, encMembers ec key xs = .ok ns
+  | [], _ => ⟨_, rfl⟩
+  | x :: xs, h => by
+      simp only [EncDomainList, Bool.and_eq_true] at h
+      obtain ⟨a, ha⟩ := encTree_ok key x h.1
+      obtain ⟨r, hr⟩ := encMembers_ok key xs h.2
+      exact ⟨a ++ r, by simp only [encMembers, ha, hr]⟩
+theorem encElems_ok : ∀ (kvs : Entries), EncDomainEntries kvs = true →
+    ∃ ns, encElems ec kvs = .ok ns
+  | [], _ => ⟨_, rfl⟩
+  | (k, v) :: rest, h => by
+      simp only [EncDomainEntries, Bool.and_eq_true] at h
+      obtain ⟨r, hr⟩ := encElems_ok rest h.2
+      simp only [encElems]
+      split
+      · exact ⟨r, hr⟩
+      · rename_i hk
+        have h1 := h.1
+        have hk' : (isAttrK ec k || decide (k = ec.textK)) = false := by
+          rw [Bool.or_comm]; simpa using hk
+        simp only [hk', Bool.false_eq_true, if_false] at h1
+        obtain ⟨a, ha⟩ := encTree_ok k v h1
+        exact ⟨a ++ r, by simp only [ha, hr]⟩
+end
+
+
+/-! ### a decoded value is its own image (up to entry order) -/
+
+/-- the values stored under a key, as siblings -/
+def sibsOf : Val → List Val
+  | .list xs => xs
+  | v => [v]
+
+/-- the text-key entries (at most one on a map with distinct keys) -/
+def textEntries : Entries → Entries
+  | [] => []
+  | (k, v) :: rest =>
+      if isAttrK ec k then textEntries rest
+      else if k = ec.textK then (k, v) :: textEntries rest
+      else textEntries rest
+
+theorem textEntries_of_not_mem : ∀ (kvs : Entries), ec.textK ∉ keys kvs → textEntries kvs = []
+  | [], _ => rfl
+  | (k, v) :: rest, h => by
+      simp only [keys_cons, List.mem_cons, not_or] at h
+      have hk : ¬ k = ec.textK := fun e => h.1 e.symm
+      simp only [textEntries, hk, if_false, ite_self]
+      exact textEntries_of_not_mem rest h.2
+
+theorem textEntries_lookup : ∀ (kvs : Entries), (keys kvs).Nodup →
+    textEntries kvs = match lookup ec.textK kvs with
+      | some v => [(ec.textK, v)]
+      | none => []
+  | [], _ => rfl
+  | (k, v) :: rest, hd => by
+      simp only [keys_cons, List.nodup_cons] at hd
+      by_cases hk : k = ec.textK
+      · subst hk
+        simp only [textEntries, textK_not_attr, Bool.false_eq_true, if_false, if_true, lookup]
+        rw [textEntries_of_not_mem rest hd.1]
+      · have hk' : ¬ ec.textK = k := fun e => hk e.symm
+        simp only [textEntries, hk, if_false, ite_self, lookup, hk']
+        exact textEntries_lookup rest hd.2
+
+theorem lookup_text_decoded : ∀ (kvs : Entries) (v : Val), DecodedEntries kvs = true →
+    lookup ec.textK kvs = some v → textEntryOk v = true
+  | [], _, _, h => by simp [lookup] at h
+  | (k, v') :: rest, v, hd, h => by
+      simp only [DecodedEntries, Bool.and_eq_true] at hd
+      simp only [lookup] at h
+      split at h
+      · rename_i e
+        obtain rfl := Option.some.inj h
+        have h1 := hd.1
+        rw [← e] at h1
+        simpa only [textK_not_attr, Bool.false_eq_true, if_false, if_true] using h1
+      · exact lookup_text_decoded rest v hd.2 h
+
+theorem base_ne_nil : ∀ (kvs : Entries), kvs.any (fun e => e.1 != ec.textK) = true →
+    (imageAttrs kvs ++ imageElems kvs).isEmpty = false
+  | [], h => by simp at h
+  | (k, v) :: rest, h => by
+      simp only [List.any_cons, Bool.or_eq_true, bne_iff_ne, ne_eq] at h
+      simp only [imageAttrs, imageElems]
+      by_cases ha : isAttrK ec k = true
+      · simp [ha]
+      · have ha' : isAttrK ec k = false := by simpa using ha
+        by_cases hk : k = ec.textK
+        · simp only [hk, decide_true, Bool.true_or, if_true]
+          rcases h with h | h
+          · exact absurd hk h
+          · exact base_ne_nil rest (by simpa using h)
+        · simp [ha', hk]
+
+theorem collectV_norm (ys : List Val) (v : Val) (h : ys.map Val.norm = (sibsOf v).map Val.norm)
+    (hl : ∀ xs, v = .list xs → 2 ≤ xs.length) : (collectV ys).norm = v.norm := by
+  have hlen : ys.length = (sibsOf v).length := by
+    have := congrArg List.length h
+    simpa using this
+  cases v with
+  | list xs =>
+    have h2 := hl xs rfl
+    simp only [sibsOf] at h hlen
+    match ys, hlen with
+    | [], hlen => simp at hlen; omega
+    | [_], hlen => simp at hlen; omega
+    | a :: b :: r, _ =>
+      simp only [collectV, Val.norm, normList_eq_map, h]
+  | null | bool _ | num _ | str _ | map _ =>
+    simp only [sibsOf, List.length_cons, List.length_nil] at hlen
+    match ys, hlen with
+    | [y], _ =>
+      simp only [sibsOf, List.map_cons, List.map_nil, List.cons.injEq, and_true] at h
+      exact h
+
+theorem finishImage_decoded (base T : Entries) (txt : Option Str)
+    (hb : base.isEmpty = false)
+    (hT : T = match txt with | some s => [(ec.textK, .str s)] | none => []) :
+    finishImage base txt = .map (base ++ T) := by
+  subst hT
+  cases txt <;> simp [finishImage, hb]
+
+mutual
+theorem image_decodedChild : ∀ (v : Val), DecodedChild v = true →
+    (imageSibs v).map Val.norm = (sibsOf v).map Val.norm
+  | .null, h => by simp [DecodedChild] at h
+  | .bool _, h => by simp [DecodedChild] at h
+  | .num _, h => by simp [DecodedChild] at h
+  | .str s, h => by
+      simp only [DecodedChild, trimmed, beq_iff_eq] at h
+      simp only [imageSibs, sibsOf, h]
+  | .list xs, h => by
+      simp only [DecodedChild, Bool.and_eq_true, decide_eq_true_eq] at h
+      have hne : xs.isEmpty = false := by cases xs <;> simp_all
+      simp only [imageSibs, hne, Bool.false_eq_true, if_false, sibsOf]
+      exact image_decodedList xs h.2
+  | .map kvs, h => by
+      simp only [DecodedChild, Bool.and_eq_true] at h
+      obtain ⟨⟨hd, hany⟩, hE⟩ := h
+      have hnd := (distinctKeys_iff kvs).1 hd
+      have hperm := image_decodedEntries kvs hE
+      have hT : textEntries kvs = match imageText kvs with
+          | some s => [(ec.textK, .str s)]
+          | none => [] := by
+        rw [textEntries_lookup kvs hnd]
+        unfold imageText
+        cases hl : lookup ec.textK kvs with
+        | none => rfl
+        | some tv =>
+          have hok := lookup_text_decoded kvs tv hE hl
+          cases tv <;> simp only [textEntryOk, Bool.false_eq_true] at hok
+          rename_i s
+          simp only [Bool.and_eq_true, trimmed, beq_iff_eq, Bool.not_eq_true'] at hok
+          simp only [leafText, fmtV, Option.getD_some, hok.1, hok.2, Bool.false_eq_true, if_false]
+      simp only [imageSibs, sibsOf, List.map_cons, List.map_nil, List.cons.injEq, and_true]
+      rw [finishImage_decoded _ (textEntries kvs) _ (base_ne_nil kvs hany) hT]
+      simp only [Val.norm]
+      congr 1
+      refine (sortByKey_congr ?_ hperm.symm).symm
+      rw [keys_normEntries]; exact hnd
+theorem image_decodedList : ∀ (xs : List Val), DecodedList xs = true →
+    (imageMembers xs).map Val.norm = xs.map Val.norm
+  | [], _ => rfl
+  | x :: xs, h => by
+      simp only [DecodedList, Bool.and_eq_true, Bool.not_eq_true'] at h
+      have h1 := image_decodedChild x h.1.2
+      have hs : sibsOf x = [x] := by
+        cases x <;> simp [Val.isList] at h <;> rfl
+      rw [hs] at h1
+      simp only [imageMembers, List.map_append, h1, image_decodedList xs h.2, List.map_cons,
+        List.map_nil, List.singleton_append]
+theorem image_decodedEntries : ∀ (kvs : Entries), DecodedEntries kvs = true →
+    (Val.normEntries (imageAttrs kvs ++ imageElems kvs ++ textEntries kvs)).Perm
+      (Val.normEntries kvs)
+  | [], _ => by simp [imageAttrs, imageElems, textEntries, Val.normEntries]
+  | (k, v) :: rest, h => by
+      simp only [DecodedEntries, Bool.and_eq_true] at h
+      have ih := image_decodedEntries rest h.2
+      have h1 := h.1
+      simp only [normEntries_eq_map, List.map_append] at ih ⊢
+      by_cases ha : isAttrK ec k = true
+      · simp only [ha, if_true] at h1
+        cases v <;> simp only [isStr, Bool.false_eq_true] at h1
+        simp only [imageAttrs, imageElems, textEntries, ha, if_true, Bool.or_true, attrValue,
+          Option.getD_some, List.map_cons, List.cons_append]
+        exact ih.cons _
+      · have ha' : isAttrK ec k = false := by simpa using ha
+        simp only [ha', Bool.false_eq_true, if_false] at h1
+        by_cases hk : k = ec.textK
+        · simp only [imageAttrs, imageElems, textEntries, hk, decide_true, Bool.true_or,
+            if_true, List.map_cons]
+          exact List.perm_middle.trans (ih.cons _)
+        · simp only [hk, if_false] at h1
+          have hc : (collectV (imageSibs v)).norm = v.norm := by
+            apply collectV_norm _ _ (image_decodedChild v h1)
+            intro xs e; subst e
+            simp only [DecodedChild, Bool.and_eq_true, decide_eq_true_eq] at h1
+            exact h1.1
+          simp only [imageAttrs, imageElems, textEntries, ha', hk, decide_false, Bool.or_false,
+            Bool.false_eq_true, if_false, List.map_cons, hc]
+          simp only [List.append_assoc, List.cons_append] at ih ⊢
+          exact List.perm_middle.trans (ih.cons _)
+end
+
+/-- a value of the shape the decoder produces is, up to entry order, its own image -/
+theorem image_decoded (v : Val) (h : Decoded v = true) : image v ≈ᵥ v := by
+  unfold Decoded at h
+  simp only [Bool.and_eq_true, Bool.not_eq_true'] at h
+  unfold image Val.equiv
+  apply collectV_norm _ _ (image_decodedChild v h.2)
+  intro xs e; subst e; simp [Val.isList] at h
+
+
+/-! ### `Decoded` is invariant under normalisation, and inside the encoder's domain -/
+
+def entryDecoded (e : Str × Val) : Bool :=
+  if isAttrK ec e.1 then isStr e.2
+  else if e.1 = ec.textK then textEntryOk e.2
+  else DecodedChild e.2
+
+theorem DecodedEntries_iff : ∀ (l : Entries),
+    DecodedEntries l = true ↔ ∀ e ∈ l, entryDecoded e = true
+  | [] => by simp [DecodedEntries]
+  | (k, v) :: rest => by
+      simp only [DecodedEntries, Bool.and_eq_true, DecodedEntries_iff rest, List.mem_cons,
+        forall_eq_or_imp, entryDecoded]
+
+theorem isStr_norm (v : Val) : isStr v.norm = isStr v := by cases v <;> rfl
+theorem textEntryOk_norm (v : Val) : textEntryOk v.norm = textEntryOk v := by cases v <;> rfl
+theorem isList_norm (v : Val) : v.norm.isList = v.isList := by cases v <;> rfl
+
+theorem distinctKeys_perm {l l' : Entries} (hp : l.Perm l') (h : distinctKeys l = true) :
+    distinctKeys l' = true :=
+  (distinctKeys_iff l').2 ((keys_nodup_perm hp).1 ((distinctKeys_iff l).1 h))
+
+theorem length_normList (xs : List Val) : (Val.normList xs).length = xs.length := by
+  rw [normList_eq_map, List.length_map]
+
+mutual
+theorem DecodedChild_norm : ∀ (v : Val), DecodedChild v = true → DecodedChild v.norm = true
+  | .null, h => h
+  | .bool _, h => h
+  | .num _, h => h
+  | .str _, h => h
+  | .list xs, h => by
+      simp only [DecodedChild, Bool.and_eq_true, decide_eq_true_eq] at h
+      simp only [Val.norm, DecodedChild, Bool.and_eq_true, decide_eq_true_eq, length_normList]
+      exact ⟨h.1, DecodedList_norm xs h.2⟩
+  | .map kvs, h => by
+      simp only [DecodedChild, Bool.and_eq_true] at h
+      obtain ⟨⟨hd, hany⟩, hE⟩ := h
+      have hp := sortByKey_perm (Val.normEntries kvs)
+      simp only [Val.norm, DecodedChild, Bool.and_eq_true]
+      refine ⟨⟨?_, ?_⟩, ?_⟩
+      · apply distinctKeys_perm hp.symm
+        rw [distinctKeys_iff, keys_normEntries]; exact (distinctKeys_iff kvs).1 hd
+      · rw [List.any_eq_true] at hany ⊢
+        obtain ⟨e, he, hk⟩ := hany
+        refine ⟨(e.1, e.2.norm), hp.mem_iff.2 ?_, hk⟩
+        rw [normEntries_eq_map]
+        exact List.mem_map.2 ⟨e, he, rfl⟩
+      · rw [DecodedEntries_iff]
+        intro e he
+        exact (DecodedEntries_iff _).1 (DecodedEntries_norm kvs hE) e (hp.mem_iff.1 he)
+theorem DecodedList_norm : ∀ (xs : List Val), DecodedList xs = true →
+    DecodedList (Val.normList xs) = true
+  | [], _ => rfl
+  | x :: xs, h => by
+      simp only [DecodedList, Bool.and_eq_true] at h
+      simp only [Val.normList, DecodedList, Bool.and_eq_true, isList_norm]
+      exact ⟨⟨h.1.1, DecodedChild_norm x h.1.2⟩, DecodedList_norm xs h.2⟩
+theorem DecodedEntries_norm : ∀ (kvs : Entries), DecodedEntries kvs = true →
+    DecodedEntries (Val.normEntries kvs) = true
+  | [], _ => rfl
+  | (k, v) :: rest, h => by
+      simp only [DecodedEntries, Bool.and_eq_true] at h
+      simp only [Val.normEntries, DecodedEntries, Bool.and_eq_true, isStr_norm, textEntryOk_norm]
+      refine ⟨?_, DecodedEntries_norm rest h.2⟩
+      have h1 := h.1
+      split
+      · rename_i ha; simpa only [ha, if_true] using h1
+      · rename_i ha
+        simp only [ha, Bool.false_eq_true, if_false] at h1
+        split
+        · rename_i hk; simpa only [hk, if_true] using h1
+        · rename_i hk
+          simp only [hk, if_false] at h1
+          exact DecodedChild_norm v h1
+end
+
+theorem Decoded_norm (v : Val) (h : Decoded v = true) : Decoded v.norm = true := by
+  unfold Decoded at h ⊢
+  simp only [Bool.and_eq_true] at h ⊢
+  exact ⟨by rw [isList_norm]; exact h.1, DecodedChild_norm v h.2⟩
+
+theorem isStr_scalar {v : Val} (h : isStr v = true) : isScalar v = true := by
+  cases v <;> simp [isStr] at h <;> rfl
+
+theorem textEntryOk_scalar {v : Val} (h : textEntryOk v = true) : isScalar v = true := by
+  cases v <;> simp [textEntryOk] at h <;> rfl
+
+mutual
+theorem DecodedChild_EncDomain : ∀ (v : Val), DecodedChild v = true → EncDomain v = true
+  | .null, _ => rfl
+  | .bool _, _ => rfl
+  | .num _, _ => rfl
+  | .str _, _ => rfl
+  | .list xs, h => by
+      simp only [DecodedChild, Bool.and_eq_true] at h
+      simp only [EncDomain, DecodedList_EncDomain xs h.2]
+  | .map kvs, h => by
+      simp only [DecodedChild, Bool.and_eq_true] at h
+      simp only [EncDomain, h.1.1, DecodedEntries_EncDomain kvs h.2, Bool.and_self]
+theorem DecodedList_EncDomain : ∀ (xs : List Val), DecodedList xs = true →
+    EncDomainList xs = true
+  | [], _ => rfl
+  | x :: xs, h => by
+      simp only [DecodedList, Bool.and_eq_true] at h
+      simp only [EncDomainList, DecodedChild_EncDomain x h.1.2, DecodedList_EncDomain xs h.2,
+        Bool.and_self]
+theorem DecodedEntries_EncDomain : ∀ (kvs : Entries), DecodedEntries kvs = true →
+    EncDomainEntries kvs = true
+  | [], _ => rfl
+  | (k, v) :: rest, h => by
+      simp only [DecodedEntries, Bool.and_eq_true] at h
+      simp only [EncDomainEntries, DecodedEntries_EncDomain rest h.2, Bool.and_true]
+      have h1 := h.1
+      by_cases ha : isAttrK ec k = true
+      · simp only [ha, if_true] at h1
+        simp only [ha, Bool.true_or, if_true, isStr_scalar h1]
+      · have ha' : isAttrK ec k = false := by simpa using ha
+        simp only [ha', Bool.false_eq_true, if_false] at h1
+        by_cases hk : k = ec.textK
+        · simp only [hk, if_true] at h1
+          simp only [hk, decide_true, Bool.or_true, if_true, textEntryOk_scalar h1]
+        · simp only [hk, if_false] at h1
+          simp only [ha', hk, decide_false, Bool.or_false, Bool.false_eq_true, if_false,
+            DecodedChild_EncDomain v h1]
+end
+
+theorem Decoded_EncDomain (v : Val) (h : Decoded v = true) : EncDomain v = true := by
+  unfold Decoded at h
+  simp only [Bool.and_eq_true] at h
+  exact DecodedChild_EncDomain v h.2
+
+
+/-! ### more on association lists and `Conv.groupOnto`, key-wise -/
+
+theorem lookup_insert (k k' : Str) (v : Val) : ∀ (l : Entries),
+    lookup k (insert k' v l) = if k = k' then some v else lookup k l
+  | [] => by simp [insert, lookup]
+  | (k'', v'') :: rest => by
+      have ih := lookup_insert k k' v rest
+      simp only [insert]
+      by_cases h : k' = k''
+      · subst h
+        by_cases h2 : k = k' <;> simp [lookup, h2]
+      · simp only [h, if_false, lookup, ih]
+        by_cases h2 : k = k''
+        · subst h2
+          have : ¬ k = k' := fun e => h e.symm
+          simp [this]
+        · simp [h2]
+
+theorem mem_keys_insert (x k : Str) (v : Val) : ∀ (l : Entries),
+    x ∈ keys (insert k v l) ↔ x = k ∨ x ∈ keys l
+  | [] => by simp [insert, keys]
+  | (k', v') :: rest => by
+      have ih := mem_keys_insert x k v rest
+      simp only [keys, List.map_cons, List.mem_cons] at ih ⊢
+      simp only [insert]
+      by_cases h : k = k'
+      · subst h; simp
+      · simp only [h, if_false, List.map_cons, List.mem_cons, ih]
+        constructor
+        · rintro (h1 | h1 | h1) <;> simp [h1]
+        · rintro (h1 | h1 | h1) <;> simp [h1]
+
+theorem nodup_keys_insert (k : Str) (v : Val) : ∀ (l : Entries),
+    (keys l).Nodup → (keys (insert k v l)).Nodup
+  | [], _ => by simp [insert, keys]
+  | (k', v') :: rest, h => by
+      have h' : k' ∉ keys rest ∧ (keys rest).Nodup := by simpa [keys] using h
+      simp only [insert]
+      by_cases hk : k = k'
+      · subst hk; simpa [keys] using h
+      · simp only [hk, if_false]
+        have ih := nodup_keys_insert k v rest h'.2
+        have hm := mem_keys_insert k' k v rest
+        rw [keys_cons, List.nodup_cons]
+        refine ⟨?_, ih⟩
+        rw [hm]
+        rintro (e | e)
+        · exact hk e.symm
+        · exact h'.1 e
+
+/-- on a list with distinct keys, membership is lookup -/
+theorem mem_iff_lookup : ∀ (l : Entries), (keys l).Nodup → ∀ (k : Str) (v : Val),
+    (k, v) ∈ l ↔ lookup k l = some v
+  | [], _, _, _ => by simp [lookup]
+  | (k', v') :: rest, hd, k, v => by
+      simp only [keys_cons, List.nodup_cons] at hd
+      have ih := mem_iff_lookup rest hd.2 k v
+      simp only [List.mem_cons, Prod.mk.injEq, lookup]
+      by_cases e : k = k'
+      · subst e
+        simp only [true_and, if_true, Option.some.injEq]
+        constructor
+        · rintro (h | h)
+          · exact h.symm
+          · exact absurd (mem_keys.2 ⟨_, h, rfl⟩) hd.1
+        · intro h; exact .inl h.symm
+      · simp only [e, false_and, false_or, if_false, ih]
+
+theorem collect_eq_none {o : Option Val} {vs : List Val} (h : Conv.collect o vs = none) : o = none := by
+  unfold Conv.collect at h
+  split at h <;> simp_all
+
+theorem lookup_gStep (cs : List (Str × Val)) (b : Entries) (k q : Str) :
+    lookup q (gStep cs b k)
+      = if q = k then Conv.collect (lookup k b) (valsOf k cs) else lookup q b := by
+  unfold gStep
+  split
+  · rename_i val hval
+    rw [lookup_insert]
+    by_cases e : q = k <;> simp [e, hval]
+  · rename_i hnone
+    by_cases e : q = k
+    · subst e
+      simp only [if_true, hnone]
+      exact collect_eq_none hnone
+    · simp [e]
+
+theorem nodup_keys_gStep (cs : List (Str × Val)) (b : Entries) (k : Str) (h : (keys b).Nodup) :
+    (keys (gStep cs b k)).Nodup := by
+  unfold gStep
+  split
+  · exact nodup_keys_insert _ _ _ h
+  · exact h
+
+theorem lookup_foldl_gStep (cs : List (Str × Val)) (q : Str) : ∀ (ks : List Str) (b : Entries),
+    ks.Nodup → lookup q (ks.foldl (gStep cs) b)
+      = if q ∈ ks then Conv.collect (lookup q b) (valsOf q cs) else lookup q b
+  | [], b, _ => by simp
+  | k :: ks, b, h => by
+      rw [List.nodup_cons] at h
+      rw [List.foldl_cons, lookup_foldl_gStep cs q ks _ h.2, lookup_gStep]
+      by_cases e : q = k
+      · subst e
+        simp [h.1]
+      · simp [e]
+
+theorem nodup_keys_foldl_gStep (cs : List (Str × Val)) : ∀ (ks : List Str) (b : Entries),
+    (keys b).Nodup → (keys (ks.foldl (gStep cs) b)).Nodup
+  | [], _, h => h
+  | k :: ks, b, h => by
+      rw [List.foldl_cons]
+      exact nodup_keys_foldl_gStep cs ks _ (nodup_keys_gStep cs b k h)
+
+theorem nodup_eraseDups_aux : ∀ (n : Nat) (l : List Str), l.length ≤ n → l.eraseDups.Nodup
+  | _, [], _ => by simp
+  | 0, _ :: _, h => by simp at h
+  | n + 1, a :: as, h => by
+      rw [List.eraseDups_cons, List.nodup_cons]
+      refine ⟨?_, nodup_eraseDups_aux n _ ?_⟩
+      · rw [List.mem_eraseDups]; simp
+      · have := List.length_filter_le (fun b => !b == a) as
+        simp only [List.length_cons] at h
+        omega
+
+theorem nodup_eraseDups (l : List Str) : l.eraseDups.Nodup := nodup_eraseDups_aux _ l (Nat.le_refl _)
+
+theorem lookup_groupOnto (base : Entries) (cs : List (Str × Val)) (q : Str) :
+    lookup q (Conv.groupOnto base cs)
+      = if q ∈ keys cs then Conv.collect (lookup q base) (valsOf q cs) else lookup q base := by
+  rw [groupOnto_eq, lookup_foldl_gStep cs q _ _ (nodup_eraseDups _)]
+  simp only [List.mem_eraseDups, keys]
+  by_cases e : q ∈ List.map (fun x => x.fst) cs <;> simp [e]
+
+theorem nodup_keys_groupOnto (base : Entries) (cs : List (Str × Val)) (h : (keys base).Nodup) :
+    (keys (Conv.groupOnto base cs)).Nodup := by
+  rw [groupOnto_eq]; exact nodup_keys_foldl_gStep cs _ _ h
+
+/-! ### `strings.Trim` is idempotent -/
+
+theorem dropWhile_head (p : Char → Bool) : ∀ (s : Str),
+    s.dropWhile p = [] ∨ ∃ x r, s.dropWhile p = x :: r ∧ p x = false
+  | [] => .inl rfl
+  | c :: s => by
+      by_cases h : p c = true
+      · rw [List.dropWhile_cons_of_pos h]; exact dropWhile_head p s
+      · rw [List.dropWhile_cons_of_neg h]; exact .inr ⟨c, s, rfl, by simpa using h⟩
+
+theorem dropWhile_idem (p : Char → Bool) (s : Str) : (s.dropWhile p).dropWhile p = s.dropWhile p := by
+  rcases dropWhile_head p s with h | ⟨x, r, h, hx⟩
+  · rw [h]; rfl
+  · rw [h, List.dropWhile_cons_of_neg (by simp [hx])]
+
+theorem dropWhile_append_last (p : Char → Bool) (x : Char) (hx : p x = false) : ∀ (l : Str),
+    (l ++ [x]).dropWhile p = l.dropWhile p ++ [x]
+  | [] => by simp [List.dropWhile, hx]
+  | c :: l => by
+      by_cases h : p c = true
+      · rw [List.cons_append, List.dropWhile_cons_of_pos h, List.dropWhile_cons_of_pos h]
+        exact dropWhile_append_last p x hx l
+      · rw [List.cons_append, List.dropWhile_cons_of_neg h, List.dropWhile_cons_of_neg h]
+        rfl
+
+theorem trimChars_idem (cut : List Char) (s : Str) :
+    trimChars cut (trimChars cut (s)) = trimChars cut s := by
+  unfold trimChars
+  generalize hp : (fun c => cut.contains c) = p
+  have hb : ((((s.dropWhile p).reverse.dropWhile p).reverse).dropWhile p)
+      = ((s.dropWhile p).reverse.dropWhile p).reverse := by
+    rcases dropWhile_head p s with h | ⟨x, r, h, hx⟩
+    · rw [h]; rfl
+    · rw [h, List.reverse_cons, dropWhile_append_last p x hx, List.reverse_append]
+      simp only [List.reverse_cons, List.reverse_nil, List.nil_append, List.singleton_append]
+      rw [List.dropWhile_cons_of_neg (by simp [hx])]
+  rw [hb, List.reverse_reverse, dropWhile_idem]
+
+theorem trimmed_trimD (s : Str) : trimmed (trimD s) = true := by
+  unfold trimmed trimD
+  rw [trimChars_idem]; simp
+
 end Mxj.Enc
